@@ -100,8 +100,17 @@ pub fn parse_limit(sql: &str) -> Option<u64> {
     let i = up.rfind(" LIMIT ")?;
     let rest = up[i + 7..].trim();
     let tok: String = rest.chars().take_while(|c| c.is_ascii_digit()).collect();
-    if tok.is_empty() || rest[tok.len()..].trim_start().starts_with('.') {
+    let after = rest[tok.len()..].trim_start();
+    if tok.is_empty() || after.starts_with('.') {
         None
+    } else if let Some(count) = after.strip_prefix(',') {
+        // `LIMIT <offset>, <count>`
+        let c: String = count.trim_start().chars().take_while(|c| c.is_ascii_digit()).collect();
+        if c.is_empty() || count.trim_start()[c.len()..].trim_start().starts_with('.') {
+            None
+        } else {
+            c.parse().ok()
+        }
     } else {
         tok.parse().ok()
     }
@@ -272,7 +281,7 @@ pub fn exec_concurrent(env: &mut Env, clients: &[ClientPlan], ctx: &str) {
     };
     if hung {
         let pending: Vec<String> = rt::core::wait_reasons().into_iter().map(|(t, r)| format!("t{t}:{r}")).collect();
-        let cause = rt::core::with_ctx(|c| c.panics.iter().find(|p| !p.contained).or(c.panics.first()).map(|p| format!("hang_after_panic:{}:{}:concurrent", file_of(&p.location), stem(&p.message))));
+        let cause = rt::core::with_ctx(|c| root_cause(&c.panics).map(|p| format!("hang_after_panic:{}:{}:concurrent", file_of(&p.location), stem(&p.message))));
         env.collect_panics(ctx);
         env.violate(&cause.unwrap_or_else(|| "hang:concurrent:no_panic".into()), format!("[{ctx}] concurrent clients never finished: every thread is blocked ({pending:?}); {} of their ops had returned", records.len()));
         return;
